@@ -31,6 +31,7 @@ func runC14(p *load.Program, r *oblig.Report) {
 	}
 	c14Leader(p, r)
 	c14Rack(p, r)
+	c14OwnStorage(p, r)
 }
 
 func clean(s string) string { return strings.ReplaceAll(s, "@", "") }
@@ -477,18 +478,147 @@ func c14Leader(p *load.Program, r *oblig.Report) {
 		r.Lost(rule, "kafka.(*ConsumerGroup).assignTopicPartitions / findGroupBalancer / makeMemberProtocolMetadata")
 		return
 	}
-	var got []string
-	for _, s := range returnShapes(fn) {
-		got = append(got, s)
-	}
-	want := "findGroupBalancer(group.GroupProtocol,cg.config.GroupBalancers)#0.AssignGroups(makeMemberProtocolMetadata(cg,group.Members)#0,conn.readPartitions(extractTopics(makeMemberProtocolMetadata(cg,group.Members)#0))#0)"
-	found := false
-	for _, s := range got {
-		if s == want {
-			found = true
+	// the balancer that was negotiated runs on the members of the join response and on the partitions of the topics
+	// they subscribe to. The listing may be read in one call or, when that call fails because one topic is missing,
+	// topic by topic (repair 2f438af); what reaches the balancer is nil or the result of a readPartitions call on
+	// (elements of) extractTopics(members).
+	var assign *ssa.Call
+	an.EachInstr(fn, func(ins ssa.Instruction) {
+		if c, ok := ins.(*ssa.Call); ok && c.Call.IsInvoke() && c.Call.Method.Name() == "AssignGroups" {
+			assign = c
+		}
+	})
+	const wantRecv, wantMembers = "findGroupBalancer(group.GroupProtocol,cg.config.GroupBalancers)#0", "makeMemberProtocolMetadata(cg,group.Members)#0"
+	var problems []string
+	var whole, perTopic *ssa.Call
+	if assign == nil {
+		problems = append(problems, "no AssignGroups call")
+	} else {
+		if g := clean(an.Shape(assign.Call.Value)); g != wantRecv {
+			problems = append(problems, "balancer: "+g)
+		}
+		if g := clean(an.Shape(assign.Call.Args[0])); g != wantMembers {
+			problems = append(problems, "members: "+g)
+		}
+		isTopics := func(v ssa.Value) bool {
+			c, ok := v.(*ssa.Call)
+			return ok && c.Call.StaticCallee() != nil && an.RefFuncName(c.Call.StaticCallee()) == "extractTopics" && clean(an.Shape(c.Call.Args[0])) == wantMembers
+		}
+		elemOfTopics := func(v ssa.Value) bool {
+			switch x := v.(type) {
+			case *ssa.UnOp:
+				if ia, ok := x.X.(*ssa.IndexAddr); ok {
+					return isTopics(ia.X)
+				}
+			case *ssa.Extract:
+				if nx, ok := x.Tuple.(*ssa.Next); ok {
+					if rg, isR := nx.Iter.(*ssa.Range); isR {
+						return isTopics(rg.X)
+					}
+				}
+			case *ssa.Index:
+				return isTopics(x.X)
+			}
+			return false
+		}
+		seen := map[ssa.Value]bool{}
+		var leaf func(v ssa.Value)
+		leaf = func(v ssa.Value) {
+			if seen[v] {
+				return
+			}
+			seen[v] = true
+			switch x := v.(type) {
+			case *ssa.Const:
+				if !x.IsNil() {
+					problems = append(problems, "partitions: constant "+x.String())
+				}
+			case *ssa.Phi:
+				for _, e := range x.Edges {
+					leaf(e)
+				}
+			case *ssa.UnOp:
+				if a, ok := x.X.(*ssa.Alloc); ok && x.Op == token.MUL {
+					for _, ref := range *a.Referrers() {
+						if st, isSt := ref.(*ssa.Store); isSt && st.Addr == ssa.Value(a) {
+							leaf(st.Val)
+						}
+					}
+					return
+				}
+				problems = append(problems, "partitions: "+clean(an.Shape(v)))
+			case *ssa.Extract:
+				c, ok := x.Tuple.(*ssa.Call)
+				if !ok || !c.Call.IsInvoke() || c.Call.Method.Name() != "readPartitions" || x.Index != 0 {
+					problems = append(problems, "partitions: "+clean(an.Shape(v)))
+					return
+				}
+				arg := c.Call.Args[0]
+				if isTopics(arg) {
+					whole = c
+					return
+				}
+				elems := an.VarArgs(arg)
+				okE := len(elems) == 1
+				for _, e := range elems {
+					if !elemOfTopics(e) {
+						okE = false
+					}
+				}
+				if okE {
+					perTopic = c
+				} else {
+					problems = append(problems, "partitions listed for "+clean(an.Shape(arg)))
+				}
+			case *ssa.Call:
+				if b, ok := x.Call.Value.(*ssa.Builtin); ok && b.Name() == "append" {
+					for _, a := range x.Call.Args {
+						leaf(a)
+					}
+					return
+				}
+				problems = append(problems, "partitions: "+clean(an.Shape(v)))
+			default:
+				problems = append(problems, "partitions: "+clean(an.Shape(v)))
+			}
+		}
+		leaf(assign.Call.Args[1])
+		if whole == nil {
+			problems = append(problems, "no listing of extractTopics(members)")
 		}
 	}
-	r.Check(found, rule, "kafka.(*ConsumerGroup).assignTopicPartitions → balancer, members and partitions", p.Pos(fn.Pos()), want, strings.Join(got, " ;; "))
+	sort.Strings(problems)
+	r.Check(len(problems) == 0, rule, "kafka.(*ConsumerGroup).assignTopicPartitions → balancer, members and partitions", p.Pos(fn.Pos()),
+		wantRecv+".AssignGroups("+wantMembers+", partitions of extractTopics(members))", strings.Join(problems, "; "))
+	// when the listing failed because a topic is missing, the other topics are listed one by one
+	okRetry := false
+	if whole != nil && perTopic != nil && blockInCycle(perTopic.Block()) {
+		var errW ssa.Value
+		for _, ref := range *whole.Referrers() {
+			if ex, isEx := ref.(*ssa.Extract); isEx && ex.Index == 1 {
+				errW = ex
+			}
+		}
+		for _, b := range an.Blocks(fn) {
+			iff, ci := an.IfCond(b)
+			if iff == nil || ci == nil {
+				continue
+			}
+			c, isCall := ci.X.(*ssa.Call)
+			if !isCall || c.Call.StaticCallee() == nil || c.Call.StaticCallee().Name() != "Is" || c.Call.Args[0] != errW || !strings.Contains(clean(an.Shape(c.Call.Args[1])), "3") {
+				continue
+			}
+			yes := 0
+			if ci.Neg {
+				yes = 1
+			}
+			if len(b.Succs[yes].Instrs) > 0 && an.Dominates(b.Succs[yes].Instrs[0], perTopic) {
+				okRetry = true
+			}
+		}
+	}
+	r.Check(okRetry, rule, "kafka.(*ConsumerGroup).assignTopicPartitions → a missing topic does not hide the partitions of the others", p.Pos(fn.Pos()),
+		"if errors.Is(err, UnknownTopicOrPartition) && len(topics) > 1 { for _, topic := range topics { conn.readPartitions(topic) … } }", "no topic-by-topic listing under the tolerated error")
 	// findGroupBalancer returns the balancer whose ProtocolName equals the requested one
 	okFB := false
 	for _, b := range an.Blocks(fb) {
